@@ -16,9 +16,9 @@ CONSTANTS
   MaxSnap = 0
   SnapSize = 1
   AsyncKinds = {"rv"}
-  MaxNet = 4
+  MaxNet = 3
   W = {}
-  MayTimeout = {a, b, c}
+  MayTimeout = {a, b}
   MayLink = {}
   Gen = FALSE
 SPECIFICATION Spec
